@@ -322,6 +322,12 @@ func run(c *vf.Ctx) {
 		}
 		switch res {
 		case porcupine.Unknown:
+			// keep the history so that it can be re-examined key by key (--replay)
+			tf := filepath.Join(vf.Out, "replays", fmt.Sprintf("C02-%d-timeout%d.json", c.Seed, i))
+			os.MkdirAll(filepath.Dir(tf), 0755)
+			if tb, err := json.Marshal(map[string]any{"case": h}); err == nil {
+				os.WriteFile(tf, tb, 0644)
+			}
 			c.Inconclusive("porcupine timeout")
 			continue
 		case porcupine.Illegal:
